@@ -160,3 +160,31 @@ func zzH_C17_hash() {
 	}
 	zzverif.Reach("end")
 }
+
+// zzH_C17_sender_cache: the sender cache on a transaction object is transparent - whatever
+// signers (network ids) the same object was asked about before, types.Sender answers what the
+// signer itself derives: under another network id the transaction is rejected, never attributed
+// to the sender cached for the network it was signed for.
+func zzH_C17_sender_cache() {
+	id1, id2 := uint64(zzverif.U32("networkId.first")), uint64(zzverif.U32("networkId.second"))
+	tx := zzC17Tx("tx", 0)
+	rec := zzverif.U8("recid")
+	zzverif.Assume(rec <= 1)
+	// signed for the first network
+	tx.data.V = new(big.Int).SetUint64(2*id1 + 35 + uint64(rec))
+	tx.data.R = new(big.Int).Lsh(big.NewInt(1), 250)
+	tx.data.S = new(big.Int).Lsh(big.NewInt(1), 250)
+	a1, e1 := Sender(NewYouSigner(id1), tx)
+	zzverif.Assert(e1 == nil, "the home network derives a sender")
+	a2, e2 := Sender(NewYouSigner(id2), tx)
+	w2, we2 := NewYouSigner(id2).Sender(tx)
+	zzverif.Assert((e2 == nil) == (we2 == nil) && (e2 != nil || a2 == w2), "a cached sender never stands in for another signer's answer")
+	if id1 != id2 {
+		zzverif.Reach("other-network")
+		zzverif.Assert(e2 != nil, "under another network id the transaction is rejected")
+	} else {
+		zzverif.Reach("same-network")
+		zzverif.Assert(e2 == nil && a2 == a1, "the same signer gets the same sender")
+	}
+	zzverif.Reach("end")
+}
